@@ -20,6 +20,7 @@ RULE = ("every key-addressed operation x argument grid (noreply None/True/False,
         "non-ASCII str values, allow_unicode_keys with non-ASCII keys, serde none/pickle/custom, legacy serializer/deserializer "
         "functions, connect_timeout/timeout, no_delay; thorough: pairs of options) x server states (hit, miss, cas match/mismatch, "
         "numeric/non-numeric counter, illegal key); arguments by keyword except where all signatures agree positionally. "
+        "Plus sessions of 3-6 random grid calls in a row on one object per stack, compared step by step. "
         "Non-trivial = >=1 non-default option or argument; distinct by (op, args, config, state).")
 ASSUMPTIONS = [
     "RetryingClient is compared with attempts=1 (forwarding, not retry duplication, which is C17's subject)",
@@ -250,6 +251,67 @@ def run_one(stack, cfg, method, args, kwargs):
     return out, [c.sig() for c in srv.cmdlog], conns, srv
 
 
+def run_session(stack, cfg, ops):
+    """several calls in a row on ONE object -> per step (outcome, commands parsed during that step)"""
+    net = FakeNet()
+    srv = net.add_server("mc1", 11211, RefServer())
+    prefill(srv, cfg.get("key_prefix", b""))
+    try:
+        obj = build(stack, net, cfg)
+    except Exception as e:
+        return [(("ctor-exc", type(e).__name__), [])]
+    steps = []
+    for i, (label, method, args, kwargs) in enumerate(ops):
+        n0 = len(srv.cmdlog)
+        net.begin_call(i)
+        a = tuple(_materialise(x) for x in args)
+        try:
+            if method.startswith("__"):
+                if not hasattr(type(obj), method):
+                    steps.append((("unsupported",), []))
+                    net.end_call()
+                    continue
+                r = getattr(type(obj), method)(obj, *a, **kwargs)
+            else:
+                r = getattr(obj, method)(*a, **kwargs)
+            out = ("ret", r)
+        except Exception as e:
+            out = ("exc", type(e).__name__)
+        net.end_call()
+        steps.append((out, [c.sig() for c in srv.cmdlog[n0:]]))
+    return steps
+
+
+def compare_session(res, cfgname, cfg, ops, case):
+    ref = run_session("client", cfg, ops)
+    res.count("sessions_compared")
+    for stack in STACKS[1:]:
+        got = run_session(stack, cfg, ops)
+        if stack.startswith("hash"):
+            # item protocol is not offered by HashClient: the session is not comparable from the first such step on
+            cut = next((i for i, (o, _) in enumerate(got) if o == ("unsupported",)), None)
+            if cut is not None:
+                got, ref_ = got[:cut], ref[:cut]
+            else:
+                ref_ = ref
+        else:
+            ref_ = ref
+        for i, ((out, cmds), (rout, rcmds)) in enumerate(zip(got, ref_)):
+            res.count("session_steps_compared")
+            res.count("commands_compared", len(cmds))
+            label, method = ops[i][0], ops[i][1]
+            hist = [o[0] for o in ops[:i + 1]]
+            if not same_out(out, rout):
+                res.violation("session:outcome-differs:%s:%s:%s" % (stack, method, cfgname),
+                              "config %s, calls %r on one object: step %d %s -> %r ; Client -> %r" % (cfgname, hist, i, stack, _sh(out), _sh(rout)), case)
+                break
+            if cmds != rcmds:
+                res.violation("session:commands-differ:%s:%s:%s" % (stack, method, cfgname),
+                              "config %s, calls %r on one object: step %d %s sent %r ; Client sent %r"
+                              % (cfgname, hist, i, stack, _sh(cmds), _sh(rcmds)), case)
+                break
+
+
 def _materialise(a):
     if isinstance(a, tuple) and len(a) == 2 and a[0] == "$iter":
         return iter(list(a[1]))
@@ -321,12 +383,32 @@ def shard(tier, seed, idx, n):
             res.case((cfgname, label) if nontrivial else None,
                      {"config": cfgname, "op": label, "method": method, "args": _sh(args), "kwargs": repr(kwargs)}
                      if res.evaluations % 499 == 0 else None)
+    # sessions: the same 3-6 calls in a row on one object of each stack (state kept between calls must not differ)
+    rng = random.Random(seed * 7 + 16)
+    for cfgname, cfg in cfgs:
+        grid = [g for g in ops_grid(cfgname) if "bad key" not in repr(g[2])]
+        for si in range(6 if tier == "quick" else 40):
+            ops = [rng.choice(grid) for _ in range(rng.randrange(3, 7))]
+            work += 1
+            if work % n != idx:
+                continue
+            compare_session(res, cfgname, cfg, ops, ("session", cfgname, [o[0] for o in ops]))
+            res.case(("session", cfgname, tuple(o[0] for o in ops)))
     res.extra["configs"] = len(cfgs) if idx == 0 else 0
     return res
 
 
 def replay(case):
     res = common.Result()
+    if case[0] == "session":
+        cfgs = dict(configs("thorough"))
+        grid = {g[0]: g for g in ops_grid(case[1])}
+        compare_session(res, case[1], cfgs[case[1]], [grid[l] for l in case[2]], case)
+        res.case(tuple(map(str, case)))
+        for c in REQUIRED_COUNTERS:
+            res.count(c)
+        res.nontrivial.update({1, 2})
+        return res
     cfgname, label = case
     cfgs = dict(configs("thorough"))
     cfg = cfgs[cfgname]
